@@ -104,7 +104,7 @@ fn fri_verify_layers(
     eval_points: Vec<Felt>,
     step_sizes: Vec<Felt>,
     mut queries: Vec<FriLayerQuery>,
-) -> Vec<FriLayerQuery> {
+) -> Result<Vec<FriLayerQuery>, Error> {
     let len: usize = n_layers.to_biguint().try_into().unwrap();
 
     for i in 0..len {
@@ -133,17 +133,17 @@ fn fri_verify_layers(
             compute_next_layer(&mut queries, &mut target_layer_witness_leaves, params).unwrap();
 
         // Table decommitment.
-        let _ = table_decommit(
+        table_decommit(
             target_commitment,
             &verify_indices,
             TableDecommitment { values: verify_y_values },
             target_layer_witness_table_withness,
-        );
+        )?;
 
         queries = next_queries;
     }
 
-    queries
+    Ok(queries)
 }
 
 // FRI protocol component decommitment.
@@ -184,7 +184,7 @@ pub fn fri_verify(
         commitment.eval_points,
         commitment.config.fri_step_sizes[1..commitment.config.fri_step_sizes.len()].to_vec(),
         fri_queries,
-    );
+    )?;
 
     if Felt::from(commitment.last_layer_coefficients.len())
         != Felt::TWO.pow_felt(&commitment.config.log_last_layer_degree_bound)
@@ -211,6 +211,9 @@ pub enum Error {
 
     #[error("Last layer verification error")]
     LastLayerVerificationError,
+
+    #[error("Layer decommitment error")]
+    LayerDecommitment(#[from] swiftness_commitment::table::decommit::Error),
 }
 
 #[cfg(not(feature = "std"))]
@@ -227,4 +230,7 @@ pub enum Error {
 
     #[error("Last layer verification error")]
     LastLayerVerificationError,
+
+    #[error("Layer decommitment error")]
+    LayerDecommitment(#[from] swiftness_commitment::table::decommit::Error),
 }
